@@ -1,6 +1,9 @@
 """Mutation audit (developer tool, not a registered check).
 
-usage: python -m mc.audit <seeded dir> [--checks C09,C12] [--tier quick] [--no-tests]
+usage: python -m mc.audit <seeded dir> [--checks C09,C12] [--tier quick] [--no-tests] [--tree <worktree>] [--out <file>]
+
+--tree runs everything against a scratch worktree of /repo (same commit) instead of /repo itself, so that several
+audits can run side by side; the checks then get PYTHONPATH / HL7APY_REPO pointing at it.
 
 Applies <dir>/patch.diff to /repo (which must be clean), runs the pinned test suite (the change
 must keep all tests passing), the demonstration (must fail with the change), and the quick checks
@@ -17,6 +20,7 @@ import sys
 import time
 
 REPO = '/repo'
+TREE_ENV = {}
 VERIF = os.path.dirname(os.path.dirname(os.path.abspath(__file__)))
 
 
@@ -27,11 +31,13 @@ def sh(cmd, cwd=None, timeout=3600, env=None):
 
 
 def main():
+    global REPO
     args = sys.argv[1:]
     d = os.path.abspath(args[0])
     checks = None
     tier = 'quick'
     tests = True
+    outfile = None
     i = 1
     while i < len(args):
         if args[i] == '--checks':
@@ -43,6 +49,13 @@ def main():
         elif args[i] == '--no-tests':
             tests = False
             i += 1
+        elif args[i] == '--tree':
+            REPO = os.path.abspath(args[i + 1])
+            TREE_ENV.update(PYTHONPATH=REPO, HL7APY_REPO=REPO)
+            i += 2
+        elif args[i] == '--out':
+            outfile = args[i + 1]
+            i += 2
         else:
             i += 1
     meta = {}
@@ -62,11 +75,11 @@ def main():
         print('patch does not apply:\n' + o)
         return 2
     sh('git -C %s apply %s' % (REPO, patch))
-    env = dict(os.environ, PYTHONHASHSEED='0', VERIF_EVIDENCE_DIR='/dev/shm/audit-evidence')
+    env = dict(os.environ, PYTHONHASHSEED='0', VERIF_EVIDENCE_DIR='/dev/shm/audit-evidence-%d' % os.getpid(), **TREE_ENV)
     try:
         if tests:
             # private network namespace: the MLLP tests bind fixed ports that concurrent test runs on this host may hold
-            rc, o, t = sh("unshare -rn sh -c 'ip link set lo up; cd %s && /venv/bin/python -m pytest -q -p no:cacheprovider --timeout=900 tests 2>&1 | tail -3'" % REPO)
+            rc, o, t = sh("unshare -rn sh -c 'ip link set lo up; cd %s && PYTHONPATH=%s /venv/bin/python -m pytest -q -p no:cacheprovider --timeout=900 tests 2>&1 | tail -3'" % (REPO, REPO))
             m = re.search(r'(\d+) passed', o)
             out['tests'] = {'passed': int(m.group(1)) if m else 0, 'failed': 'failed' in o or 'error' in o.lower(), 'tail': o.strip()[-200:], 'wall_s': round(t, 1)}
         if os.path.exists(demo):
@@ -86,7 +99,7 @@ def main():
     out['caught_by'] = sorted(c for c, r in out['checks'].items() if r['exit'] == 1 and r['violations'] > 0)
     out['valid_mutant'] = bool((not tests or (out['tests']['passed'] >= 353 and not out['tests']['failed'])) and
                                out.get('demo_with_change', {}).get('exit', 1) != 0 and out.get('demo_without_change', {}).get('exit', 0) == 0)
-    with open(os.path.join(d, 'audit.json'), 'w') as f:
+    with open(outfile or os.path.join(d, 'audit.json'), 'w') as f:
         json.dump(out, f, indent=1)
         f.write('\n')
     print(json.dumps(out, indent=1))
